@@ -65,7 +65,43 @@ class Crps(Family):
         return res
 
 
+def wrapper_crps(tier):
+    """metrics.crps drops exactly the forecasts whose observation is missing (or whose ensemble is entirely missing), and calls the
+    kernel with use_weights=0, is_sorted=0, a zeroed (m+1)x7 table and a zeroed decomposition vector"""
+    import numpy as np
+    from hydrodiy.stat import metrics as M
+    from engine.contracts import Recorder, patched_module
+    out = []
+    nan = np.nan
+    cases = [([1.0, 2.0, 3.0], [[1., 2.], [2., 3.], [0., 1.]], [0, 1, 2]),
+             ([1.0, nan, 3.0], [[1., 2.], [2., 3.], [0., 1.]], [0, 2]),
+             ([nan, 2.0, nan, 4.0], [[1.], [2.], [5.], [6.]], [1, 3]),
+             ([1.0, 2.0, 3.0], [[1., 2.], [nan, nan], [0., 1.]], [0, 2]),
+             ([1.0, 2.0], [[nan, 2.], [2., 3.]], [0, 1])]
+    for obs, ens, keep in cases:
+        rec = Recorder()
+        with patched_module(M, 'c_hydrodiy_stat', rec):
+            M.crps(np.array(obs), np.array(ens))
+        c = rec.calls[-1]
+        tag = dict(obs=obs, ens=ens)
+        m = len(ens[0])
+        out.append(('flags', int(c.args[0]) == 0 and int(c.args[1]) == 0, tag))
+        out.append(('observations-with-missing-value-dropped', np.array_equal(c.args[2], np.array(obs)[keep]), dict(tag, got=c.args[2].tolist())))
+        out.append(('matching-ensemble-rows', np.array_equal(c.args[3], np.array(ens)[keep], equal_nan=True), dict(tag, got=c.args[3].tolist())))
+        out.append(('table-and-decomposition-zeroed', c.args[5].shape == (m + 1, 7) and np.all(c.args[5] == 0) and c.args[6].shape == (5,) and np.all(c.args[6] == 0), tag))
+    return out
+
+
+CONTRACTS = [wrapper_crps]
+
+
+def contracts_part(tier, seed, workdir):
+    from engine.contracts import run_contracts
+    return run_contracts('C03', 'harness.C03', CONTRACTS, tier)
+
+
 FAMILIES = [Crps()]
+PARTS = [contracts_part]
 
 META = dict(
     explanation='bounded symbolic execution of the LLVM IR of c_crps (malloc, qsort modelled as a stable insertion sort calling the real comparator, '
